@@ -237,6 +237,11 @@ where
         let n = rng.range(4, 8) as u32;
         let threads = if rng.chance(1, 3) { 4 } else { 1 };
         let mref = setup::<K>(1 << 16, 1 << rng.range(2, 12), threads, n);
+        let depth = *rng.pick(&[0u32, 1, 2, u32::MAX]);
+        mref.with_manager_shared(|m| {
+            use oxidd::WorkerPool;
+            m.workers().set_split_depth(Some(depth))
+        });
         let order = rng.perm(n as usize);
         set_order(&mref, &order);
         let fs: Vec<(K::F, Tt)> = (0..6)
@@ -291,7 +296,7 @@ where
             if rt != want {
                 ctx.violation(
                     &format!("{k}:random:{}:wrong-table", ["quant", "apply_quant", "substitute", "restrict"][which as usize]),
-                    format!("order {order:?} threads {threads}: {what} = {rt} want {want}"),
+                    format!("order {order:?} threads {threads} split depth {depth}: {what} = {rt} want {want}"),
                 );
             } else if !want.is_const() {
                 ctx.distinct((k, which, &want, mask));
@@ -306,5 +311,116 @@ pub fn random(ctx: &mut Ctx) {
     random_kind::<Bdd>(ctx, &mut rng, cases);
     random_kind::<Bcdd>(ctx, &mut rng, cases);
     random_kind::<Zbdd>(ctx, &mut rng, cases);
-    ctx.sample(|| "random: n in 4..8, random order, threads 1/4, cache 4..4096 entries; quant / apply_quant / substitute / restrict".into());
+    ctx.sample(|| "random: n in 4..8, random order, threads 1/4 with split depth 0/1/2/MAX, cache 4..4096 entries; quant / apply_quant / substitute / restrict".into());
+}
+
+// ------------------------------------------------------------------------------------------
+// the trait's default implementations of apply_forall / apply_exists / apply_unique
+// ------------------------------------------------------------------------------------------
+
+/// `oxidd_core::function::BooleanFunctionQuant` ships default implementations of the combined
+/// apply-and-quantify forms ("naive": operator, then quantifier) for function types that only
+/// provide forall/exists/unique. The BDD and BCDD types override them, so nothing else in this
+/// harness executes the defaults. This module defines such a function type — a newtype around
+/// the real function with derived `Function`/`BooleanFunction` and a hand-written
+/// `BooleanFunctionQuant` holding only the required methods — the way the derive macros are
+/// meant to be used by downstream code.
+mod wrapped {
+    use oxidd::util::AllocResult;
+    use oxidd_core::function::{BooleanFunction, BooleanFunctionQuant, EdgeOfFunc, Function};
+
+    macro_rules! wrapper {
+        ($name:ident, $inner:ty) => {
+            #[derive(Clone, PartialEq, Eq, PartialOrd, Ord, Hash, oxidd_derive::Function, oxidd_derive::BooleanFunction)]
+            pub struct $name(pub $inner);
+
+            impl BooleanFunctionQuant for $name {
+                fn forall_edge<'id>(
+                    manager: &Self::Manager<'id>,
+                    root: &EdgeOfFunc<'id, Self>,
+                    vars: &EdgeOfFunc<'id, Self>,
+                ) -> AllocResult<EdgeOfFunc<'id, Self>> {
+                    <$inner as BooleanFunctionQuant>::forall_edge(manager, root, vars)
+                }
+                fn exists_edge<'id>(
+                    manager: &Self::Manager<'id>,
+                    root: &EdgeOfFunc<'id, Self>,
+                    vars: &EdgeOfFunc<'id, Self>,
+                ) -> AllocResult<EdgeOfFunc<'id, Self>> {
+                    <$inner as BooleanFunctionQuant>::exists_edge(manager, root, vars)
+                }
+                fn unique_edge<'id>(
+                    manager: &Self::Manager<'id>,
+                    root: &EdgeOfFunc<'id, Self>,
+                    vars: &EdgeOfFunc<'id, Self>,
+                ) -> AllocResult<EdgeOfFunc<'id, Self>> {
+                    <$inner as BooleanFunctionQuant>::unique_edge(manager, root, vars)
+                }
+            }
+        };
+    }
+    wrapper!(WBdd, oxidd::bdd::BDDFunction);
+    wrapper!(WBcdd, oxidd::bcdd::BCDDFunction);
+
+    #[allow(unused)]
+    fn _assert<F: Function + BooleanFunction>() {}
+}
+
+fn defaults_kind<K: BoolKind, W>(ctx: &mut Ctx, order: &[u32], wrap: fn(K::F) -> W, unwrap: fn(W) -> K::F)
+where
+    W: oxidd::BooleanFunctionQuant,
+    for<'id> MgrOf<'id, K>: HasWorkers,
+    for<'x> INodeOfFunc<'x, K::F>: HasLevel,
+{
+    let n = 3u32;
+    let all = All3::<K>::build(ctx, n, order, 1, 1 << 16, 1 << 10);
+    let k = K::NAME;
+    let tt = |b: usize| Tt::from_u64(n, b as u64);
+    let mut rng = ctx.rng(0xC04_D + order[0] as u64 * 7 + order[1] as u64 * 3);
+    let set_tt = |mask: u32| Tt::cube(n, &(0..n).filter(|v| (mask >> v) & 1 == 1).map(|v| (v, true)).collect::<Vec<_>>());
+    let set_vars = |mask: u32| (0..n).filter(|v| (mask >> v) & 1 == 1).collect::<Vec<_>>();
+    let w: Vec<W> = all.funcs.iter().map(|f| wrap(f.clone())).collect();
+    let pairs = ctx.by_tier(400, 20_000);
+    for _ in 0..pairs {
+        let (a, b) = (rng.usize(256), rng.usize(256));
+        for op in ALL_BOPS {
+            let inner_t = tt(a).bop(op, &tt(b));
+            for mask in 0..8u32 {
+                let vs = &w[set_tt(mask).as_u64() as usize];
+                for q in ALL_QUANTS {
+                    let r = match q {
+                        Quant::Exists => w[a].apply_exists(op.to_oxidd(), &w[b], vs),
+                        Quant::Forall => w[a].apply_forall(op.to_oxidd(), &w[b], vs),
+                        Quant::Unique => w[a].apply_unique(op.to_oxidd(), &w[b], vs),
+                    }
+                    .unwrap();
+                    let r = unwrap(r);
+                    let want = inner_t.quant(q, &set_vars(mask));
+                    ctx.eval();
+                    let got = all.map.get(&r).map(|&x| tt(x as usize));
+                    if got.as_ref() != Some(&want) {
+                        ctx.violation(
+                            &format!("{k}:default-impl:apply_{}:{}:wrong-table", qname(q), op.name()),
+                            format!("order {order:?}: {} {:?}. ({} {} {}) = {got:?} want {want}", qname(q), set_vars(mask), tt(a), op.name(), tt(b)),
+                        );
+                    } else {
+                        ctx.distinct((k, "default-aq", qname(q), op, mask, want.as_u64()));
+                    }
+                }
+            }
+        }
+    }
+}
+
+/// apply_forall / apply_exists / apply_unique through the trait's DEFAULT implementations
+pub fn defaults(ctx: &mut Ctx) {
+    let orders = all_perms(3);
+    for (i, order) in orders.iter().enumerate() {
+        if ctx.mine(i) {
+            defaults_kind::<Bdd, wrapped::WBdd>(ctx, order, wrapped::WBdd, |w| w.0);
+            defaults_kind::<Bcdd, wrapped::WBcdd>(ctx, order, wrapped::WBcdd, |w| w.0);
+            ctx.count("configs", 1);
+        }
+    }
+    ctx.sample(|| "default implementations of BooleanFunctionQuant::apply_{forall,exists,unique} on a newtype function that only provides the required methods: random operand pairs x 8 operators x 8 variable sets x 3 quantifiers, all 6 orders of 3 variables, bdd and bcdd".into());
 }
